@@ -157,6 +157,7 @@ pub fn core_families(rep: &mut Report, thorough: bool) {
 	run_into(rep, "M", fam::fam_same(body, thorough), &cfg);
 	run_into(rep, "W", fam::fam_unchecked(body), &cfg);
 	run_into(rep, "K", fam::fam_kill(thorough), &cfg);
+	run_into(rep, "Z", fam::fam_duplicates(), &cfg);
 	run_into(rep, "Q", fam::fam_rekey(), &cfg);
 	run_into(rep, "U", fam::fam_unlock(thorough), &cfg);
 	run_into(rep, "S", fam::fam_readers(thorough), &cfg);
